@@ -142,6 +142,13 @@ facts["lossless_pending_mask"] = (i_ent < i_mask and "(*cinfo->idct->start_pass)
                                   re.search(r"if \(row > 0 && \(diff->restart_pending & \(1U << row\)\)\)\s*\(\*cinfo->idct->start_pass\) \(cinfo\);", b) is not None and
                                   pos(b, "diff->restart_pending = 0;", "decompress_data", last=True) > pos(b, "predict_undifference", "decompress_data"))
 
+# ---- compression coefficient controller: mcu_ctr reset after every MCU row (jccoefct.c compress_data)
+jccoefct = src("jccoefct.c")
+b = body(jccoefct, r"\ncompress_data\s*\(j_compress_ptr cinfo", "jccoefct compress_data")
+pos(b, "coef->mcu_ctr = MCU_col_num;", "compress_data")
+pos(b, "coef->MCU_vert_offset = yoffset;", "compress_data")
+coef_reset = re.search(r"return FALSE;\s*\}\s*\}\s*coef->mcu_ctr = 0;\s*\}", b) is not None
+
 # ---- constants the models use
 jdhuffh = src("jdhuff.h")
 m = re.search(r"#if SIZEOF_SIZE_T == 8[^\n]*\n\s*typedef size_t bit_buf_type;[^\n]*\n#define BIT_BUF_SIZE\s+(\d+)", jdhuffh)
@@ -184,6 +191,7 @@ print("Definition src_enc_bufsize : nat := %d." % enc_bufsize)
 print("Definition src_fast_fill_threshold : Z := %d." % fast_fill_threshold)
 print("Definition src_fast_fill_bytes : nat := %d." % fast_fill_bytes)
 print("Definition output_rows_ahead : nat := %d." % ahead)
+print("Definition coef_ctr_reset_per_row : bool := %s." % ("true" if coef_reset else "false"))
 print("Definition latch_by_copy : bool := %s." % ("true" if by_copy else "false"))
 names = [k for k in facts if k != "output_pass_resets_lossless"]
 for k in names:
